@@ -225,7 +225,7 @@ func describe(f pppoe.VerifFrame) string {
 	case pppoe.ProtocolPAP:
 		name = map[uint8]string{2: "PAPACK", 3: "PAPNAK"}[pc]
 	case pppoe.ProtocolIPCP:
-		name = map[uint8]string{1: "IPCPREQ", 2: "IPCPACK", 3: "IPCPNAK"}[pc]
+		name = map[uint8]string{1: "IPCPREQ", 2: "IPCPACK", 3: "IPCPNAK", 4: "IPCPREJ"}[pc]
 		if pc == 3 && len(body) >= 4 {
 			// the offered client address, if any
 			if opts, err := pppoe.ParseLCPOptions(body[4:]); err == nil {
@@ -393,6 +393,9 @@ func (r *run) Do(op string) string {
 		switch f[3] {
 		case "creq-ip":
 			body = lcpPkt(pppoe.LCPCodeConfigRequest, 11, []pppoe.LCPOption{{Type: pppoe.IPCPOptIPAddress, Data: []byte{0, 0, 0, 0}}})
+		case "creq-own":
+			// the peer names an address itself: 10.77.0.2, the first address of the pool (some other session's, typically)
+			body = lcpPkt(pppoe.LCPCodeConfigRequest, 14, []pppoe.LCPOption{{Type: pppoe.IPCPOptIPAddress, Data: []byte{10, 77, 0, 2}}})
 		case "creq-dns":
 			body = lcpPkt(pppoe.LCPCodeConfigRequest, 12, []pppoe.LCPOption{{Type: pppoe.IPCPOptPrimaryDNS, Data: []byte{0, 0, 0, 0}}})
 		case "creq-none":
@@ -471,6 +474,39 @@ func (comp) Gen(rg *rand.Rand, tier string, emit func([]string)) {
 		}
 		emit(seq)
 	}
+	// the pool runs dry: more authenticated sessions than addresses; the ones left without an address go on with IPCP
+	// (a request carrying an address must not be acknowledged: the peer would pick its own, possibly another session's)
+	k = 150
+	if tier == "thorough" {
+		k = 3000
+	}
+	for i := 0; i < k; i++ {
+		seq := []string{"new noradius 30"}
+		ns := 2 + rg.Intn(2)
+		for m := 1; m <= ns; m++ {
+			seq = append(seq, fmt.Sprintf("padr m%d cookie", m))
+			if rg.Intn(4) != 0 {
+				seq = append(seq, fmt.Sprintf("lcp m%d %d cack", m, m))
+			}
+			seq = append(seq, fmt.Sprintf("pap m%d %d good accept", m, m))
+		}
+		for j, ln := 0, 2+rg.Intn(8); j < ln; j++ {
+			m := 1 + rg.Intn(ns)
+			switch x := rg.Intn(10); {
+			case x < 5:
+				seq = append(seq, fmt.Sprintf("ipcp m%d %d %s", m, m, hx.Pick(rg, []string{"creq-ip", "creq-own", "creq-none", "creq-dns", "cack"})))
+			case x < 6:
+				seq = append(seq, fmt.Sprintf("padt m%d %d", m, m))
+			case x < 7:
+				seq = append(seq, fmt.Sprintf("ip m%d %d", m, m))
+			case x < 8:
+				seq = append(seq, fmt.Sprintf("pap m%d %d good accept", m, m)) // a second accepted PAP: may now find an address
+			default:
+				seq = append(seq, randOp(rg, ns, false))
+			}
+		}
+		emit(seq)
+	}
 	if tier == "thorough" {
 		exhaustive(emit)
 	}
@@ -498,7 +534,7 @@ func randOp(rg *rand.Rand, macs int, useRad bool) string {
 		}
 		return fmt.Sprintf("pap %s %d %s %s", m, sid, hx.Pick(rg, []string{"good", "good", "bad", "empty"}), out)
 	case x < 92:
-		return fmt.Sprintf("ipcp %s %d %s", m, sid, hx.Pick(rg, []string{"creq-ip", "creq-dns", "creq-none", "cack", "cack"}))
+		return fmt.Sprintf("ipcp %s %d %s", m, sid, hx.Pick(rg, []string{"creq-ip", "creq-own", "creq-dns", "creq-none", "cack", "cack"}))
 	case x < 94:
 		return fmt.Sprintf("ip %s %d", m, sid)
 	case x < 97:
